@@ -46,9 +46,11 @@ pub struct C18;
 const FILE: &str = "marked.star";
 
 /// Generate a program with markers. Returns (text, 1-based line numbers of the marker statements).
-fn gen_marked(rng: &mut Rng) -> (String, Vec<(u32, u32)>) {
+fn gen_marked(rng: &mut Rng) -> (String, Vec<(u32, u32)>, Vec<(u32, String)>) {
     let mut lines: Vec<String> = Vec::new();
     let mut markers: Vec<(u32, u32)> = Vec::new();
+    // (marker line, name): a name that is not assigned yet when that marker is reached.
+    let mut absent: Vec<(u32, String)> = Vec::new();
     let mut next_id = 0u32;
     let mut push_mark = |lines: &mut Vec<String>, indent: usize, args: &[&str]| {
         let id = next_id;
@@ -69,7 +71,16 @@ fn gen_marked(rng: &mut Rng) -> (String, Vec<(u32, u32)>) {
         push_mark(&mut lines, 4, &["a", "b", "c"]);
         let nb = 1 + rng.usize(4);
         for _ in 0..nb {
-            match rng.below(15) {
+            match rng.below(16) {
+                15 => {
+                    // a comprehension variable with the name of a local that is assigned only later
+                    let nm = format!("late2_{}", lines.len());
+                    lines.push(format!("    ws = [{nm} * 2 for {nm} in range(3)]"));
+                    push_mark(&mut lines, 4, &["c"]);
+                    absent.push((lines.len() as u32, nm.clone()));
+                    lines.push(format!("    {nm} = c + len(ws)"));
+                    push_mark(&mut lines, 4, &[&nm]);
+                }
                 8 => {
                     // a loop left by break, the loop variable read after the loop
                     lines.push("    for i2 in range(4):".to_owned());
@@ -200,6 +211,15 @@ fn gen_marked(rng: &mut Rng) -> (String, Vec<(u32, u32)>) {
         push_mark(&mut lines, 0, &["g0"]);
         lines.push("emit(glist)".to_owned());
     }
+    // A local that is assigned in an untaken branch only, under the name of a module variable.
+    lines.push("def maybe_g(cnd):".to_owned());
+    lines.push("    zq = 1 if cnd else 2".to_owned());
+    push_mark(&mut lines, 4, &["zq"]);
+    absent.push((lines.len() as u32, "glist".to_owned()));
+    lines.push("    if cnd:".to_owned());
+    lines.push("        glist = [0]".to_owned());
+    push_mark(&mut lines, 4, &["zq"]);
+    lines.push("    return len(glist)".to_owned());
     lines.push("def fail_in(n):".to_owned());
     lines.push("    if n == 0:".to_owned());
     lines.push("        return [n] + 1".to_owned());
@@ -242,6 +262,9 @@ fn gen_marked(rng: &mut Rng) -> (String, Vec<(u32, u32)>) {
                 if typed && rng.bool() {
                     let bad = *rng.pick(&["ftyped(\"bad\", \"x\")", "ftyped(1, 2)", "ftyped(1, \"x\", [\"y\"])", "ftyped(None)"]);
                     lines.push(format!("u{t} = {bad}"));
+                } else if rng.chance(1, 3) {
+                    // `glist` is a local of maybe_g that is never assigned on this path.
+                    lines.push(format!("u{t} = [maybe_g(True), maybe_g(False)]"));
                 } else if rng.bool() {
                     // The error is raised a few frames deep, inside running defs.
                     lines.push(format!("u{t} = [{f}(1), fail_in({})]", rng.range(0, 4)));
@@ -262,7 +285,7 @@ fn gen_marked(rng: &mut Rng) -> (String, Vec<(u32, u32)>) {
         lines.push("emit(late)".to_owned());
     }
     lines.push("emit(g0, glist)".to_owned());
-    (lines.join("\n") + "\n", markers)
+    (lines.join("\n") + "\n", markers, absent)
 }
 
 /// Does the statement on this (1-based) line get a synthetic GC safepoint statement in front of it?
@@ -774,7 +797,7 @@ impl World for C18 {
         let root = Rng::new(run_seed(seed, "C18", index));
         let mut wl = root.fork("workload");
         let mut sch = root.fork("schedule");
-        let (text, markers) = gen_marked(&mut wl);
+        let (text, markers, absent) = gen_marked(&mut wl);
         let ns = 2 + sch.usize(3);
         let mut sessions: Vec<Json> = Vec::new();
         for i in 0..ns {
@@ -786,7 +809,7 @@ impl World for C18 {
         sessions.push(json!({"mode": "step", "step_kind": "into", "seed": sch.next_u64() >> 8, "max_stops": 2000}));
         sessions.push(json!({"mode": "step", "step_kind": *sch.pick(&["over", "out", "mixed"]), "seed": sch.next_u64() >> 8, "max_stops": 2000,
                              "detach_at_stop": if sch.chance(1, 4) { json!(sch.below(10)) } else { Json::Null }}));
-        json!({"text": text, "markers": markers, "sessions": sessions})
+        json!({"text": text, "markers": markers, "absent": absent, "sessions": sessions})
     }
 
     fn execute(&self, case: &Json) -> Outcome {
@@ -1016,7 +1039,21 @@ impl World for C18 {
             // to execute emits exactly those values.
             if mode == "breakpoints" && o.violation.is_none() {
                 let mark_lines: Vec<&String> = reference.transcript.iter().filter(|l| l.starts_with("mark ")).collect();
+                let absent: Vec<(u32, String)> = case["absent"].as_array().map(|a| a.iter().filter_map(|x| Some((x[0].as_u64()? as u32, x[1].as_str()?.to_owned()))).collect()).unwrap_or_default();
                 for (stop_no, line, shown) in &d.vars {
+                    // A local that is not assigned yet at this point has no value to show.
+                    for (al, an) in &absent {
+                        if al == line {
+                            o.bump("probe.unassigned_locals_checked", 1);
+                            if let Some(v) = shown.get(an) {
+                                // (a module variable of that name is not a local of this frame either)
+                                o.violate("debugger-variable-wrong", "variables-unassigned", format!("{what}: stop {stop_no} at line {line}: `{an}` is shown as `{v}` although the function's local of that name is not assigned yet"));
+                            }
+                        }
+                    }
+                    if o.violation.is_some() {
+                        break;
+                    }
                     // stop_no-th stop (1-based) <-> expected_exec[stop_no - 1]-th marker execution.
                     let Some(exec_idx) = expected_exec.get(stop_no - 1) else { continue };
                     let Some(emitted) = mark_lines.get(*exec_idx) else { continue };
